@@ -359,6 +359,13 @@ class FormulaManager(object):
           - (Optionally) a mpq or mpz object
         """
         # TODO could this be improved by storing only the relative Fraction (or int maybe) in the real_constants dict?
+        # The kind of the argument is checked before the cache is
+        # looked up: True == 1 must not make Real(True) depend on
+        # whether Real(1) was created before
+        if not (is_pysmt_fraction(value) or isinstance(value, tuple) or
+                is_python_rational(value)):
+            raise PysmtTypeError("Invalid type in constant. The type was:" + \
+                                 str(type(value)))
         if value in self.real_constants:
             return self.real_constants[value]
 
